@@ -250,8 +250,8 @@ class AbstractFieldFormat(object):
             possibly_stripped_value = value.strip()
         else:
             possibly_stripped_value = value
-        if possibly_stripped_value:
-            # The blanks of an empty fixed cell are padding, not content to check.
+        if possibly_stripped_value or value.strip(" "):
+            # Only the blanks padding an empty fixed cell are no content to check.
             self.validate_characters(value)
         self.validate_empty(possibly_stripped_value)
         self.validate_length(value)
